@@ -39,6 +39,7 @@ import (
 type vfsEntry struct {
 	B  int `json:"b"`
 	St int `json:"st"`
+	Rl int `json:"rl"` // 1: header relinked to the hash stated for the previous entry
 }
 
 type vfsResp struct {
@@ -206,7 +207,13 @@ scenarios:
 						stated = f.Hash[e.St]
 					}
 					body := types.Body{}
-					data = append(data, &types.BlockData{Hash: stated, Header: f.vsfCopyHeader(e.B), Body: &body})
+					hdr := f.vsfCopyHeader(e.B)
+					if e.Rl == 1 && len(data) > 0 {
+						// a different header: child of whatever hash was stated for the previous entry
+						hdr = types.NewHeader(data[len(data)-1].Hash, hdr.StateRoot, hdr.ExtrinsicsRoot, hdr.Number, hdr.Digest)
+						stated = hdr.Hash()
+					}
+					data = append(data, &types.BlockData{Hash: stated, Header: hdr, Body: &body})
 				}
 				dir := messages.Ascending
 				if r.Dir == "desc" {
